@@ -224,10 +224,12 @@ def judge(kind: str, edit: Optional[str], exp: Dict[str, Any], obs: Dict[str, An
             E = Counter(tuple(x) if isinstance(x, list) else x for x in e[cat])
             O = Counter(tuple(x) if isinstance(x, list) else x for x in o[cat])
             for item in sorted((E - O).elements(), key=repr):
-                q = ""
+                key = f"C18/{kind}/not-reported"
                 if cat == "deleted" and e["n_new"] == 0:
-                    q = "new-layer-empty/"
-                out.append((f"C18/{kind}/{q}not-reported",
+                    key = "C18/deleted/new-layer-empty/not-reported"
+                elif kind == "layer-pair":
+                    key = f"C18/layer-pair/{cat}-not-reported"
+                out.append((key,
                             f"[{via}] layer {lname}: expected {cat} {item!r}; reported new={o['new']} deleted={o['deleted']} "
                             f"renamed={o['renamed']} changed={o['changed']}"))
             for item in sorted((O - E).elements(), key=repr):
@@ -324,6 +326,26 @@ def run_case(case: Dict[str, Any], part: Optional[Part] = None) -> List[Tuple[st
         copy = independent_copy(db_id, files, aux)
         compare_and_judge("self/independent-copy", None, files, files, db, copy)
         compare_and_judge("self/independent-copy", None, files, files, copy, db)
+        # two different layers of one database (`compare -v A B`)
+        pairs = ref.expected_layer_pairs(files)
+        task = new_task([db])
+        layers = {dl.short_name: dl for dl in db.diag_layers}
+        for pname, pe in pairs.items():
+            if pe["ambiguous"]:
+                cnt("layer_pairs_ambiguous")
+                continue
+            a, b = pname.split("/")
+            try:
+                o = observe_layer(task.compare_diagnostic_layers(layers[a], layers[b]))
+            except Exception as e:
+                out.append((f"C18/layer-pair/raises/{type(e).__name__}", f"{pname}: {type(e).__name__}: {e}"))
+                continue
+            out.extend(judge("layer-pair", None, {"new_layers": [], "deleted_layers": [], "layers": {pname: pe["diff"]}},
+                             {"new_layers": [], "deleted_layers": [], "layers": {pname: o}}, "compare_diagnostic_layers"))
+            cnt("evaluations")
+            cnt("layer_pairs")
+            if part is not None and any(pe["diff"][c] for c in CATS):
+                part.add("nontrivial", digest((db_id, "pair", pname)))
         probs, n, how = judge_metrics(files, db)
         out.extend(probs)
         cnt("evaluations", n)
